@@ -26,6 +26,7 @@ NSHARDS = 16
 NAMEPOOL = ["zz", "aa", "mm", "a.b", "..", "ü∂", " lead", "trail ", "x" * 300, "y" * 1000,
             "0123456789abcdef0123456789abcdef", "12345678-1234-5678-1234-567812345678", "A", "a",
             "{12345678-1234-5678-1234-567812345679}", "urn:uuid:12345678-1234-5678-1234-56781234567a",
+            "e\u0301cole", "\u212bngstr\u00f6m", "\u2126", "\u1112\u1161\u11ab", "\ufb01n",   # legal names that are not NFC/NFKC-normalised
             "n1", "n2", "n3", "n4", "n5", "n6", "n7", "n8", "n9", "n10", "n11", "0", "-1", "name with spaces", "tab\there"]
 
 KINDS = ["file.blocks", "file.sections", "block.data_arrays", "block.data_frames", "block.tags", "block.multi_tags",
@@ -49,7 +50,8 @@ def nameclass(n):
     if len(n) > 100:
         return "long"
     if any(ord(c) > 127 for c in n):
-        return "nonascii"
+        import unicodedata
+        return "nonascii" if unicodedata.normalize("NFC", n) == n and unicodedata.normalize("NFKC", n) == n else "nonascii_unnormalised"
     if n != n.strip() or "\t" in n or " " in n:
         return "blanks"
     if n in ("..", "a.b", "0", "-1"):
